@@ -56,6 +56,25 @@ Theorem C01_level_overflow : forall b e, valid b = true -> fcfs b = Raise e -> e
 Proof. exact fcfs_refuses_cleanly. Qed.
 Print Assumptions C01_level_overflow.
 
+(* ------------------------------------------------------------------ the converse direction *)
+From RV Require Import Proofs.C01Parse Proofs.C01FromDb.
+
+(* whatever string the decoder accepts: openers before closers inside the string, every position in at most one pair,
+   pairs listed by increasing closing position *)
+Theorem C01_decoded_pairs_wellformed : forall s ps, parse_db s = Ok ps -> wellformed_pairs (length s) ps.
+Proof. exact parse_db_wellformed. Qed.
+Print Assumptions C01_decoded_pairs_wellformed.
+
+(* dot-bracket -> BPSEQ -> dot-bracket: the structure built from any accepted string is valid, has exactly the decoded
+   pairs, and every lossless encoding of it (FCFS in particular) decodes to the same pairs again *)
+Theorem C01_db_bpseq_db : forall s sq ps, parse_db s = Ok ps -> length sq = length s ->
+    let b := from_db sq ps in
+    valid b = true /\ pairs0 b = ps /\
+    (forall s', lossless b s' = true -> parse_db s' = Ok ps) /\
+    (forall s', fcfs b = Ok s' -> parse_db s' = Ok ps).
+Proof. exact db_bpseq_db. Qed.
+Print Assumptions C01_db_bpseq_db.
+
 (* non-vacuity and the negative example: a kissing pattern; a proper assignment is lossless,
    an improper one (two crossing stems on one level) is not *)
 Example C01_nonvacuous :
